@@ -79,7 +79,8 @@ class StorageSystem(explore.System):
     def __init__(self, init):
         SEAMS.uid = 0
         self.uid = 0
-        self.impl = RepeaterStorage()
+        self.builtin = tuple(getattr(self.cfg, "builtin", BUILTIN))
+        self.impl = getattr(self.cfg, "storage_factory", RepeaterStorage)()
         self.recs = []  # real record objects in order of first appearance
         self.model = []  # dict per record: fields + attrs
         self.last_choice = {}
@@ -128,7 +129,7 @@ class StorageSystem(explore.System):
     def _snapshot_impl(self):
         out = []
         for r in self.impl.all():
-            d = {f: getattr(r, f) for f in BUILTIN}
+            d = {f: getattr(r, f) for f in self.builtin}
             d["attrs"] = {k: r.attr(k) for k in ATTR_KEYS}
             d["id"] = r.id
             out.append((id(r), d))
@@ -137,7 +138,7 @@ class StorageSystem(explore.System):
     def _model_apply_patch(self, k, patch):
         m = self.model[k]
         for key, v in patch.items():
-            if key in BUILTIN:
+            if key in self.builtin:
                 if key == "address_in" and m[key] != v:
                     self.last_choice = {}
                 m[key] = v
@@ -162,6 +163,7 @@ class StorageSystem(explore.System):
         len_before = len(self.impl)
         raised = None
         ret = None
+        given = patch = None
         undefined = False  # call outside what the statement defines: may raise, must not change state
         expect = ("any",)
         try:
@@ -171,15 +173,18 @@ class StorageSystem(explore.System):
                 cands = self._candidates(lambda m: m["address_in"] == addr)
                 if not cands and not auto and patch:
                     undefined = True
-                ret = self.impl.match_incoming(addr, auto_create=auto, patch=patch)
+                given = dict(patch)
+                ret = self.impl.match_incoming(addr, auto_create=auto, patch=given)
                 expect = ("lookup", addr, cands, auto, patch)
             elif kind == "save":
                 patch = self._patch_dict(ev[2])
-                ret = self.impl.save(self.recs[ev[1]], patch=patch)
+                given = dict(patch)
+                ret = self.impl.save(self.recs[ev[1]], patch=given)
                 expect = ("rec", ev[1], patch)
             elif kind == "rpatch":
                 patch = self._patch_dict(ev[2])
-                ret = self.recs[ev[1]].patch(patch)
+                given = dict(patch)
+                ret = self.recs[ev[1]].patch(given)
                 expect = ("rec", ev[1], patch)
             elif kind == "match_uuid":
                 ret = self.impl.match_uuid(self.recs[ev[1]].id)
@@ -218,6 +223,9 @@ class StorageSystem(explore.System):
         except Exception as e:  # noqa: BLE001
             raised = e
         self.uid = SEAMS.uid
+        if given is not None and given != patch:
+            # the caller owns the dict it passes (a provisioning table re-applied on every datagram): the library must not consume it
+            viol.append(("callers_patch_dict_modified", {"event": list(ev), "passed": repr(patch), "left": repr(given)}))
 
         # ---- oracle on the return value -------------------------------------------------------
         if raised is not None:
@@ -242,7 +250,7 @@ class StorageSystem(explore.System):
                         viol.append(("auto_create_did_not_create_new_record", {"event": list(ev)}))
                     else:
                         self.recs.append(ret)
-                        m = {f: getattr(ret, f) for f in BUILTIN}
+                        m = {f: getattr(ret, f) for f in self.builtin}
                         m["attrs"] = {}
                         if "address_in" in patch:
                             m["address_in"] = addr  # created for addr, then moved by the patch (applied to the model below)
@@ -306,7 +314,7 @@ class StorageSystem(explore.System):
             if "id" in m and m["id"] != d["id"]:
                 viol.append(("record_id_changed", {"event": list(ev), "record": k}))
             m["id"] = d["id"]
-            diffs = [f for f in BUILTIN if d[f] != m[f]] + [
+            diffs = [f for f in self.builtin if d[f] != m[f]] + [
                 "attr:" + a for a in ATTR_KEYS if d["attrs"].get(a) != m["attrs"].get(a)
             ]
             if diffs:
@@ -315,7 +323,7 @@ class StorageSystem(explore.System):
                 viol.append((sig, {"event": list(ev), "record": k, "fields": diffs,
                                    "impl": {f: repr(d[f.replace('attr:', '')] if not f.startswith('attr:') else d['attrs'].get(f[5:])) for f in diffs}}))
                 # resynchronise the model so one defect is reported once per transition, not forever
-                for f in BUILTIN:
+                for f in self.builtin:
                     m[f] = d[f]
                 m["attrs"] = {a: v for a, v in d["attrs"].items() if v is not None}
         self.obs = (kind, repr(type(raised).__name__ if raised else None), self._obs_ret(ret), len(self.model))
@@ -326,7 +334,7 @@ class StorageSystem(explore.System):
         implementation (not part of the property): copy them; patched fields get the patched value afterwards"""
         r = self.recs[k]
         m = self.model[k]
-        for f in BUILTIN:
+        for f in self.builtin:
             if f not in patch and f != "address_in":
                 m[f] = getattr(r, f)
 
@@ -342,7 +350,7 @@ class StorageSystem(explore.System):
         # object: hidden implementation state (caches, indexes) must never be merged away by the abstraction
         return (
             tuple(
-                (tuple((f, repr(m[f])) for f in BUILTIN), tuple(sorted((a, repr(v)) for a, v in m["attrs"].items() if v is not None)))
+                (tuple((f, repr(m[f])) for f in self.builtin), tuple(sorted((a, repr(v)) for a, v in m["attrs"].items() if v is not None)))
                 for m in self.model
             ),
             tuple(sorted((repr(a), k) for a, k in self.last_choice.items())),
@@ -353,6 +361,36 @@ class StorageSystem(explore.System):
 def make_system(addrs, patches, addr_patches=None, inits=("empty",), **more):
     cfg = type("Cfg", (), {"addrs": list(addrs), "patches": dict(patches), "addr_patches": dict(addr_patches or {}), **more})
     return type("StorageSystemCfg", (StorageSystem,), {"cfg": cfg, "INITS": list(inits)})
+
+
+class SiteRepeater(Repeater):
+    """a repeater extended the documented way (RepeaterStorage.create_repeater override): one field with a class-level default, one
+    property with a setter"""
+
+    site = "unassigned"
+
+    def __init__(self, *a, **k):
+        super().__init__(*a, **k)
+        self._hw = 0
+
+    @property
+    def hw_rev(self):
+        return self._hw
+
+    @hw_rev.setter
+    def hw_rev(self, v):
+        self._hw = v
+
+
+class SiteStorage(RepeaterStorage):
+    def create_repeater(self, dmr_id=None, address_in=("", 0), address_out=("", 0), address_nat=("", 0)):
+        return SiteRepeater(address_in=address_in, address_out=address_out, address_nat=address_nat, dmr_id=dmr_id)
+
+
+def SUBCLASS_SYSTEM():
+    patches = {"none": {}, "callsign": {"callsign": "x"}, "site": {"site": "A"}, "hw": {"hw_rev": 3}, "custom": {"custom": 1}, "site_and_custom": {"site": "B", "custom": 2}}
+    return make_system([A, C], patches, match_attrs=(("site", "A"), ("site", "unassigned"), ("hw_rev", 3), ("callsign", "x")),
+                       builtin=BUILTIN + ("site", "hw_rev"), storage_factory=SiteStorage)
 
 
 def EDGE_SYSTEM():
@@ -398,6 +436,7 @@ def run(only=None):
         runs.append(("addr_patch_depth4", make_system([A, B], {k: PATCHES[k] for k in ("none", "callsign")}, PATCHES_ADDR), 4))
         runs.append(("all_sequences_depth3_3addr_full", make_system([A, B, C], PATCHES), 3))
     runs.append(("address_spellings_and_field_extremes_depth3", EDGE_SYSTEM(), 4 if rep.thorough() else 3))
+    runs.append(("extended_repeater_through_create_repeater_hook", SUBCLASS_SYSTEM(), None if rep.thorough() else 4))
     for name, cls, depth in runs:
         if only and name not in only:
             continue
@@ -425,6 +464,7 @@ def replay(doc):
             "all_sequences_depth4_3addr_full": make_system([A, B, C], PATCHES),
             "all_sequences_depth3_3addr_full": make_system([A, B, C], PATCHES),
             "address_spellings_and_field_extremes_depth3": EDGE_SYSTEM(),
+            "extended_repeater_through_create_repeater_hook": SUBCLASS_SYSTEM(),
         }
         cls = cfgs[name]
         s = cls(c["init"])
